@@ -18,6 +18,12 @@ Proof. revert b t. induction a as [|x a IH]; intros [|y b] [|t] Ha Hb; cbn in *;
 Lemma nth_firstn_lt {A} (l : list A) d : forall n t, t < n -> nth t (firstn n l) d = nth t l d.
 Proof. induction l as [|x l IH]; intros [|n] [|t] H; cbn; try lia; try reflexivity. apply IH. lia. Qed.
 
+Lemma nth_map_lt {A B} (f : A -> B) (l : list A) d d' t : t < length l -> nth t (map f l) d' = f (nth t l d).
+Proof. intro H. rewrite (nth_indep _ d' (f d)) by (now rewrite map_length). apply map_nth. Qed.
+
+Lemma nth_map_seq {B} (f : nat -> B) a n d t : t < n -> nth t (map f (seq a n)) d = f (a + t).
+Proof. intro H. rewrite (nth_map_lt f _ 0) by (now rewrite seq_length). now rewrite seq_nth. Qed.
+
 Lemma existsb_eqb_In (u : nat) l : existsb (Nat.eqb u) l = true <-> In u l.
 Proof. rewrite existsb_exists. split.
   - intros (x & Hx & E). apply Nat.eqb_eq in E. now subst.
